@@ -107,9 +107,11 @@ def binopFloat (op : ArOp) (a b : UInt64) : Value :=
 def i2f (i : Int64) : UInt64 := fBits i.toFloat
 
 /-- `strings.Repeat` for a non-negative count. -/
-def repeatBytes (s : Bytes) : Nat → Bytes
-  | 0 => []
-  | n+1 => s ++ repeatBytes s n
+def repeatAcc (s : Bytes) : Nat → Bytes → Bytes
+  | 0, acc => acc
+  | n+1, acc => repeatAcc s n (s ++ acc)
+
+def repeatBytes (s : Bytes) (n : Nat) : Bytes := repeatAcc s n []
 
 inductive BinRes where
   | ok (v : Value)
@@ -120,7 +122,7 @@ def binop (op : ArOp) (name : String) (a b : Value) : BinRes :=
   match a, b with
   | .int x, .int y => if op = .div && y == 0 then .err (str "division by int zero") else .ok (binopInt op x y)
   | .int x, .float y => .ok (binopFloat op (i2f x) y)
-  | .float x, .int y => .ok (binopFloat op x (i2f y))
+  | .float x, .int y => if op = .div && y == 0 then .err (str "division by int zero") else .ok (binopFloat op x (i2f y))
   | .float x, .float y => .ok (binopFloat op x y)
   | _, _ =>
     let invalid : BinRes := .err (str name ++ str ": invalid types: " ++ str (vtype a) ++ str ", " ++ str (vtype b))
